@@ -5,19 +5,36 @@ set -u
 cd "$(dirname "$0")"
 . ./env.sh
 mkdir -p .bin .work
+# VERIF_REPO=<dir> (tools/seedcheck.sh, tools/seedall.sh): check a scratch copy of the library (a worktree with a
+# seeded change applied) instead of /repo, with its own binaries and its own output root, so that /repo, evidence/
+# and replays/ are untouched and several copies can be checked at once. The registered commands never set it.
+REPO=${VERIF_REPO:-/repo}
+BIN=.bin
+MODFLAG=
+if [ "$REPO" != /repo ]; then
+  ALT="$PWD/.work/alt-$$"
+  mkdir -p "$ALT/bin"
+  sed "s#=> /repo#=> $REPO#" go.mod > "$ALT/go.mod"; cp "$REPO/go.sum" "$ALT/go.sum" 2>/dev/null
+  cp KNOWN_FINDINGS.txt "$ALT/"
+  MODFLAG="-modfile=$ALT/go.mod"
+  BIN="$ALT/bin"
+  export VERIF_ROOT="$ALT"
+  trap 'rm -rf "$ALT"' EXIT
+fi
 # the harness module resolves github.com/tyler-sommer/stick through "replace => /repo",
 # so this rebuild always compiles /repo's current working tree (build tag "verif": no hooks needed).
-cp /repo/go.sum ./go.sum 2>/dev/null
+[ "$REPO" = /repo ] && cp /repo/go.sum ./go.sum 2>/dev/null
 # Lock, once, map and atomic operations of the library become scheduling points of the cooperative scheduler:
 # files of /repo that import sync or sync/atomic are compiled from a copy whose import is redirected to the
 # shims in verif/vsync (go build -overlay; /repo is untouched; no such file on the pinned tree).
-python3 tools/mkoverlay.py /repo .work/overlay >/dev/null || { echo "overlay generation failed"; exit 2; }
-go build -tags verif -overlay .work/overlay/overlay.json -o .bin/vcheck ./cmd/vcheck || { echo "build failed"; exit 2; }
+OVL=.work/overlay; [ "$REPO" = /repo ] || OVL="$ALT/overlay"
+python3 tools/mkoverlay.py "$REPO" "$OVL" >/dev/null || { echo "overlay generation failed"; exit 2; }
+go build $MODFLAG -tags verif -overlay "$OVL/overlay.json" -o "$BIN/vcheck" ./cmd/vcheck || { echo "build failed"; exit 2; }
 if [ "${1:-}" = "replay" ]; then
-  exec .bin/vcheck replay "$2"
+  "$BIN/vcheck" replay "$2"; exit $?
 fi
 id="$1"; tier="${2:-${VERIF_TIER:-quick}}"
 if [ "$id" = "C18" ]; then
-  go build -race -tags verif -o .bin/vcheck-race ./cmd/vcheck || { echo "race build failed"; exit 2; }
+  go build $MODFLAG -race -tags verif -o "$BIN/vcheck-race" ./cmd/vcheck || { echo "race build failed"; exit 2; }
 fi
-exec .bin/vcheck check "$id" --tier "$tier"
+"$BIN/vcheck" check "$id" --tier "$tier"; exit $?
